@@ -258,7 +258,7 @@ theorem array_byteswap_items' (d : DType) (hd : d.length % 8 = 0) (hpos : 0 < d.
   have hf : fmtSizes (.int ((d.length / 8 : Nat) : Int)) 0 (items.flatten ++ trail).length = .ok [d.length / 8] := by
     rw [fmtSizes_int_nat, if_neg (by omega)]
   have hspec := byteswap_eq_spec (items.flatten ++ trail) (.int ((d.length / 8 : Nat) : Int)) none none true 0
-    (items.flatten ++ trail).length [d.length / 8] (validateSlice_none _) hf (Or.inl rfl)
+    (items.flatten ++ trail).length [d.length / 8] (validateSlice_none _) hf
   unfold arrayByteswap
   rw [if_neg (by omega), hc, hspec]
   have htot : 8 * [d.length / 8].sum = d.length := by simp; omega
@@ -289,7 +289,7 @@ theorem array_byteswap_twice' (d : DType) (hd : d.length % 8 = 0) (hpos : 0 < d.
   have hf : fmtSizes (.int ((d.length / 8 : Nat) : Int)) 0 data.length = .ok [d.length / 8] := by
     rw [fmtSizes_int_nat, if_neg (by omega)]
   have := byteswap_twice_id data (.int ((d.length / 8 : Nat) : Int)) none none true 0 data.length [d.length / 8]
-    (validateSlice_none _) hf (Or.inl rfl) n b hb
+    (validateSlice_none _) hf n b hb
   rw [this]
 
 
